@@ -562,6 +562,30 @@ pub fn cmd(_args: &[String]) {
                     break;
                 }
             }
+            // epilogue: every thread collects twice, the graph of the last model state must stay intact
+            if job["epilogue"].as_bool() == Some(true) && viol.is_empty() && done == walk.len() && !walk.is_empty() {
+                let mut last = walk[walk.len() - 1].clone();
+                last["op"] = json!("epilogue");
+                let nthr = last["nthr"].as_u64().unwrap();
+                let gone: Vec<u64> = last["gone"].as_array().map(|a| a.iter().filter_map(|x| x.as_u64()).collect()).unwrap_or_default();
+                'outer: for round in 0..2 {
+                    for t in 1..=nthr {
+                        if gone.contains(&last["vmof"][(t - 1) as usize].as_u64().unwrap()) {
+                            continue;
+                        }
+                        println!("{{\"log\":[{}]}}", 1000 + round * 100 + t);
+                        w.threads[&t].collect();
+                        let mut out = Vec::new();
+                        w.verify(&last, &mut out);
+                        if !out.is_empty() {
+                            for (k, text) in out.into_iter().take(4) {
+                                viol.push(json!([format!("epilogue-collect:{}", k), format!("after collection #{} by thread {}: {}", round + 1, t, text), walk.len()]));
+                            }
+                            break 'outer;
+                        }
+                    }
+                }
+            }
             verif::set_stress(0);
             // dropping the world drops every VM: must not crash
             drop(w);
